@@ -404,6 +404,39 @@ func ruleFieldAccess(c *Ctx, r *Report, rule string) {
 			}
 		}
 	}
+	// a field is present iff its key is in the map (comma-ok), whatever its value
+	if arm := vm.Arms["opGETFIELD"]; arm != nil {
+		okPresence, n := true, 0
+		why := ""
+		for _, p := range arm.Paths {
+			if p.Abort {
+				continue
+			}
+			looked, hit := false, false
+			for _, ev := range p.Events {
+				if ev.Kind == "lookup" {
+					looked = true
+				}
+				if ev.Kind == "if" && strings.HasPrefix(ev.Detail, "ok(lookup(") && strings.HasSuffix(ev.Detail, "=true") {
+					hit = true
+				}
+			}
+			if looked {
+				n++
+				if !hit {
+					okPresence = false
+					var ds []string
+					for _, ev := range p.Events {
+						if ev.Kind == "if" {
+							ds = append(ds, ev.Detail)
+						}
+					}
+					why = fmt.Sprintf("a path pushes a looked-up field without the lookup's ok having been true (decisions %v)", ds)
+				}
+			}
+		}
+		r.check(okPresence && n > 0, rule, "GETFIELD/presence", "a looked-up value is used only when the map lookup reported the key present", "GETFIELD: "+why, c.pos(arm.Clause.Pos()))
+	}
 	// GETFIELD's scan
 	lit := vm.Closures["blockGet"]
 	var scans []*ast.ForStmt
